@@ -337,6 +337,8 @@ class Calls(Interp):
             return self.quantifier(fn.id, node.args[0], node)
         if isinstance(fn, ast.Name) and fn.id == "old" and self.spec_mode:
             return self.eval_old(node.args[0])
+        if isinstance(fn, ast.Name) and fn.id == "iter0" and self.spec_mode:
+            return self.eval_iter0(node.args[0])
         if isinstance(fn, ast.Name) and fn.id in ("forall", "exists") and self.spec_mode:
             return self.quant_lambda(fn.id, node)
         if isinstance(fn, ast.Name) and fn.id == "super" and not node.args:
@@ -650,6 +652,10 @@ class Calls(Interp):
     def apply_contract(self, c, recv, args, kwargs, node, star=None, dstar=None, mname=None, func=None):
         self.used_contracts.add(c.target)
         env = self.contract_env(c, recv, args, kwargs, node, star, dstar, func)
+        for pn, ptag in c.params.items():
+            pv = env.get(pn)
+            if isinstance(pv, SV) and pv.ty is None and ptag not in (None, "any"):
+                env[pn] = SV(pv.term, ptag)       # arguments are typed by the callee's contract (trusted typing)
         env.update(self.context_vals)
         if func is not None and "self" in env and recv is None:
             recv = env["self"]
@@ -984,6 +990,13 @@ class Calls(Interp):
         if isinstance(xs, TupV):
             return TupV([self.call_value(f, [x], {}, node) for x in xs.items])
         return LazyMapV(f, xs)
+
+    def bi_reversed(self, args, kwargs, node):
+        v = args[0]
+        if isinstance(v, TupV):
+            return TupV(list(reversed(v.items)))
+        from .interp import RevV
+        return RevV(self.as_seq(v, node), self.elem_tag(v))
 
     def bi_sorted(self, args, kwargs, node):
         v = args[0]
@@ -1325,6 +1338,16 @@ class Calls(Interp):
         return super().as_seq(v, node)
 
     # ------------------------------------------------------------- spec level
+    def eval_iter0(self, expr):
+        cur = self.st.heap
+        if not self.iter_stack:
+            raise SpecError("iter0() outside a loop body contract")
+        self.st.heap = self.iter_stack[-1]
+        try:
+            return self.ev(expr)
+        finally:
+            self.st.heap = cur
+
     def eval_old(self, expr):
         cur = self.st.heap
         self.st.heap = self.old_stack[-1]
@@ -1352,6 +1375,25 @@ class Calls(Interp):
                 bs.append(z3.Implies(z3.And(conds), body) if which == "all" else z3.And(conds + [body]))
             return BoolSV(z3.And(bs) if which == "all" else z3.Or(bs)) if bs else BoolSV(which == "all")
         if isinstance(it, RangeV):
+            lo_s = z3.simplify(it.lo)
+            first_next = _plus_one(lo_s)     # lo == t - 1  ->  t
+            if first_next is not None and not getattr(self, "_no_split", False):
+                # range(t-1, hi): split off the FIRST element (loops that walk a sequence backwards)
+                self.push_bind(g.target, SV(Val.intv(lo_s), "int"), node)
+                try:
+                    conds_f = [self.truthy(self.ev(c), node) for c in g.ifs]
+                    body_f = self.truthy(self.ev(gen.elt), node)
+                finally:
+                    self.pop_bind()
+                self._no_split = True
+                try:
+                    rest = self.quantifier_range(which, gen, node, first_next, it.hi, qid)
+                finally:
+                    self._no_split = False
+                nonempty = lo_s < it.hi
+                if which == "all":
+                    return BoolSV(z3.Implies(nonempty, z3.And(rest, z3.Implies(z3.And(conds_f), body_f))))
+                return BoolSV(z3.And(nonempty, z3.Or(rest, z3.And(conds_f + [body_f]))))
             hi = z3.simplify(it.hi)
             last = _minus_one(hi)
             if last is not None and not getattr(self, "_no_split", False):
@@ -1754,6 +1796,19 @@ def _minus_one(t):
         ch = t.children()
         consts = [c for c in ch if z3.is_int_value(c)]
         if len(consts) == 1 and consts[0].as_long() == 1:
+            rest = [c for c in ch if not z3.is_int_value(c)]
+            return rest[0] if len(rest) == 1 else z3.Sum(rest)
+    return None
+
+
+def _plus_one(t):
+    """t == u - 1 (syntactically, after simplification) -> u"""
+    if z3.is_int_value(t):
+        return None
+    if z3.is_app(t) and t.decl().kind() == z3.Z3_OP_ADD:
+        ch = t.children()
+        consts = [c for c in ch if z3.is_int_value(c)]
+        if len(consts) == 1 and consts[0].as_long() == -1:
             rest = [c for c in ch if not z3.is_int_value(c)]
             return rest[0] if len(rest) == 1 else z3.Sum(rest)
     return None
